@@ -554,6 +554,7 @@ func heapFragments(i int) []string {
 		"H.ev" + n + "=eval('(function(){var q=" + n + ";return function(){return q++}})()');R.push({inc:H.ev" + n + ",peek:H.ev" + n + "});",
 		"H.nw" + n + "=new Function('a','return a+" + n + "');",
 		"var SH" + n + "={wv:'w" + n + "'};function mkw" + n + "(tag){with(SH" + n + "){return function(){return tag+wv}}}H.wa" + n + "=mkw" + n + "('a');H.wb" + n + "=mkw" + n + "('b');",
+		"H.mxc" + n + "=0;H.mx" + n + "=Math.max.bind(null,{valueOf:function(){if(H.mxc" + n + "++%2===0)H.mx" + n + "(1000);return 1}},2);",
 		"H.og" + n + "={};H.og" + n + ".a=1;H.og" + n + ".b=2;H.og" + n + ".c=3;H.og" + n + ".d=4;H.og" + n + ".e=5;",
 		"H.pa" + n + "=(function(arguments){return function(){return String(arguments)}})(" + n + ");",
 		"H.em" + n + "={};H.ea" + n + "=[];H.ef" + n + "=function(){};",
@@ -585,6 +586,7 @@ var observeFragments = []string{
 	"for(var k in H){try{if(k.slice(0,2)==='nf')rec(k+':'+H[k](4)+':'+H[k].name)}catch(e){rec('E'+e)}}",
 	"try{rec(typeof gg1+':'+(typeof gf1==='function'?gf1():'-'))}catch(e){rec('E'+e)}",
 	"for(var k in H){try{var fo=H[k];if(fo&&typeof fo==='object'&&k.slice(0,2)==='og'){var fl=[];for(var fk in fo){fl.push(fk);if(fl.length===1){fo.zz=1;delete fo.b}}rec(k+':'+fl.join()+':'+Object.keys(fo).join())}}catch(e){rec('E'+e)}}",
+	"for(var k in H){try{if(k.slice(0,2)==='mx'&&k.charAt(2)!=='c')rec(k+':'+H[k](50)+':'+H[k](7))}catch(e){rec('E'+e)}}",
 	"for(var k in H){try{if(k.slice(0,2)==='wa')rec(k+':'+H[k]()+','+H['wb'+k.slice(2)]())}catch(e){rec('E'+e)}}",
 	"try{rec(typeof H.dive==='function'?H.dive(25)+':'+H.dive(3):'nodive')}catch(e){rec('E'+e)}",
 	"try{rec(H.realEval?(function(eval){var loc='local';return eval('loc')})(H.realEval)+':'+eval('loc'):'noeval')}catch(e){rec('E'+e)}",
